@@ -107,6 +107,5 @@ pub use crate::util::metadata::side_metadata::verif_sanity_hooks;
 pub use crate::util::treadmill::TreadMill;
 // C37 (family "policy"): Compressor forwarding metadata on a harness-mapped region.
 pub use crate::policy::compressor::forwarding::verif_hooks as compressor_hooks;
-pub use crate::policy::compressor::forwarding::ForwardingMetadata;
 // C38 (family "policy"): stand-alone MemBalancerTrigger / FixedHeapSizeTrigger drivers.
 pub use crate::util::heap::gc_trigger::verif_hooks as gc_trigger_hooks;
